@@ -28,7 +28,7 @@ pub fn char2tok(c: char) -> String {
         ' ' => "S".into(),
         '\r' => "R".into(),
         '_' => "U".into(),
-        c if c.is_ascii_alphanumeric() && !"ETQNDSRU".contains(c) => c.to_string(),
+        c if c.is_ascii_graphic() && !"ETQNDSRU".contains(c) => c.to_string(),
         // anything else travels as a hex token; Text.tla treats unknown tokens as 1-byte non-word,
         // so callers must not use them where widths matter
         c => format!("u{:x}", c as u32),
